@@ -40,6 +40,68 @@ def _selftest(ctx, trace, mutate, label):
     ctx.cov["binding_selftest"] = f"corrupted event {i + 1} rejected"
 
 
+def command_orders(ctx, n_ws):
+    """the order in which the real `cargo libcnb package` packages: random composite-only workspaces whose
+    buildpack ids / directory names sort in an order unrelated to the dependency order; the printed
+    `[i/n] Building <id>` sequence is recorded (also when the command fails part-way: kind order-prefix)"""
+    import random
+    import re
+    import shutil
+    from concurrent.futures import ThreadPoolExecutor
+    from checks import c15
+    cargo_libcnb = c15.build_cargo_libcnb(ctx)
+    env = dict(os.environ, CARGO=shutil.which("cargo"), CARGO_NET_OFFLINE="true")
+    env.pop("CI", None)
+    rng = random.Random(ctx.seed * 7919 + 13)
+    base = os.path.join(vlib.SCRATCH, f"c13-cmd-{os.getpid()}")
+    shutil.rmtree(base, ignore_errors=True)
+    os.makedirs(base)
+    cases = []
+    for i in range(n_ws):
+        n = rng.randint(2, 7)
+        names = rng.sample(["a", "b", "c", "d", "e", "f", "g", "h", "m", "z"], n)
+        topo = names[:]
+        rng.shuffle(topo)          # dependency order is independent of the lexicographic order of the ids
+        deps = {x: [] for x in names}
+        for k, x in enumerate(topo):
+            for y in topo[:k]:
+                if rng.random() < (0.6 if k == len(topo) - 1 else 0.4):
+                    deps[x].append(y)
+            rng.shuffle(deps[x])
+        dirs = {}
+        pool = [f"{p}{q}" for p in ("", "k/", "k/l/", "y/") for q in ("p1", "p2", "p3", "p4", "p5", "p6", "p7")]
+        for x, d in zip(names, rng.sample(pool, n)):
+            dirs[x] = d
+        cwd = "" if i % 3 else dirs[rng.choice(names)]
+        cases.append({"i": i, "deps": deps, "dirs": dirs, "cwd": cwd})
+
+    def one(c):
+        root = os.path.join(base, str(c["i"]))
+        os.makedirs(root)
+        open(os.path.join(root, "Cargo.toml"), "w").write('[workspace]\nresolver = "2"\nmembers = []\n')
+        open(os.path.join(root, ".ignore"), "w").write("packaged/\n")
+        for x, d in c["dirs"].items():
+            p = os.path.join(root, d)
+            os.makedirs(p)
+            open(os.path.join(p, "buildpack.toml"), "w").write(
+                f'api = "0.10"\n\n[buildpack]\nid = "v/{x}"\nversion = "1.0.0"\n\n[[order]]\n[[order.group]]\nid = "x/y"\nversion = "1.0.0"\n')
+            open(os.path.join(p, "package.toml"), "w").write(
+                '[buildpack]\nuri = "."\n' + "".join(f'\n[[dependencies]]\nuri = "libcnb:v/{y}"\n' for y in c["deps"][x]))
+        pr = c15.sh([cargo_libcnb, "libcnb", "package", "--target", c15.TARGET, "--no-cross-compile-assistance"], cwd=os.path.join(root, c["cwd"]), env=env)
+        order = [m.group(1)[2:] for m in re.finditer(r"\[\d+/\d+\] Building (\S+)", pr.stderr)]
+        shutil.rmtree(root, ignore_errors=True)
+        return c, pr.returncode, order, pr.stderr[-300:]
+
+    events = []
+    with ThreadPoolExecutor(max_workers=16) as ex:
+        for c, rc, order, err in ex.map(one, cases):
+            roots = sorted(c["dirs"]) if c["cwd"] == "" else [x for x, d in c["dirs"].items() if d == c["cwd"]]
+            events.append({"kind": "order" if rc == 0 else "order-prefix", "deps": c["deps"], "roots": roots, "order": order, "ok": True,
+                           "rc": rc, "stderr": "" if rc == 0 else err})
+    shutil.rmtree(base, ignore_errors=True)
+    return events
+
+
 def run_c13(ctx):
     vlib.cargo_build(ctx)
     quick = ctx.tier == "quick"
@@ -70,8 +132,25 @@ def run_c13(ctx):
             return i
         _selftest(ctx, trace, mut, "orders")
         ctx.add("traces_validated_against_impl", s["evaluations"])
-    ctx.add("evaluations", s["evaluations"])
-    ctx.add("distinct_nontrivial", s["distinct_nontrivial"])
+    # the same law one level up: the order in which `cargo libcnb package` itself packages
+    cmd = command_orders(ctx, 120 if quick else 1500)
+    if sum(1 for e in cmd if e["kind"] == "order" and len(e["order"]) >= 3) < len(cmd) // 3:
+        fails = [e for e in cmd if e["kind"] != "order"]
+        if not any(len(e["order"]) >= 1 for e in fails):
+            raise vlib.ToolError(f"cargo libcnb package printed no build order for most workspaces: {fails[:1]}")
+    ctrace = os.path.join(wd, "command-orders.ndjson")
+    vlib.write_ndjson(ctrace, cmd)
+    bad = _validate(ctx, ctrace, "command-orders")
+    if bad is not None:
+        ev = cmd[bad - 1]
+        ctx.violation("command packages a buildpack before its dependency", f"`cargo libcnb package` with dependencies {ev['deps']} (selected {ev['roots']}) "
+                      f"packaged in the order {ev['order']}" + (f" and then failed: {ev['stderr']}" if ev["rc"] else ""), {"event": ev}, "pkg_trace")
+    else:
+        ctx.add("traces_validated_against_impl", len(cmd))
+    ctx.cov["command_orders"] = len(cmd)
+    ctx.cov["command_orders_complete"] = sum(1 for e in cmd if e["kind"] == "order")
+    ctx.add("evaluations", s["evaluations"] + len(cmd))
+    ctx.add("distinct_nontrivial", s["distinct_nontrivial"] + sum(1 for e in cmd if len(e["order"]) >= 2))
     ctx.assumptions += ["graphs are written to disk as real buildpack directories (composite with package.toml libcnb: dependencies, "
                         "libcnb.rs leaves, a shell buildpack and a non-buildpack directory that must be ignored) and read back through "
                         "build_libcnb_buildpacks_dependency_graph",
@@ -80,7 +159,10 @@ def run_c13(ctx):
                        "29 281 DAGs on 5 nodes x 9 selections] built as a real workspace; get_dependencies' order validated by TLC "
                        "(ValidOrder: no duplicates, exactly the closure, dependencies first); per DAG two workspaces with a dangling "
                        "dependency must fail; plus 60 (thorough 2000) seeded random DAGs on 6-12 nodes with 6 random root selections each. "
-                       "Non-trivial: order of length >= 2; distinct = (graph, roots).", exhaustive=True)
+                       "Also 120 (thorough 1500) random composite-only workspaces of 2-7 buildpacks (ids and directories sorting independently "
+                       "of the dependency order) packaged by the real `cargo libcnb package` from the root / from one buildpack's directory: "
+                       "the printed build order is validated by TLC (a complete valid order, or, when the command failed, a prefix of a "
+                       "behaviour of the emit machine). Non-trivial: order of length >= 2; distinct = (graph, roots).", exhaustive=True)
 
 
 def run_c14(ctx):
